@@ -23,6 +23,11 @@ struct Params {
     api_first: bool,
     hash_key: u64,
     policy: u8,
+    /// one more peer joins only after every call has returned
+    late_joiner: bool,
+    /// the calls start only after every (non-late) peer has attached; a failing peer's connection
+    /// breaks right then (instead of at a scheduler-chosen moment)
+    calls_after_attach: bool,
 }
 
 fn topic(op: u8) -> &'static str {
@@ -53,20 +58,32 @@ fn fold(msgs: &[Vec<Vec<u8>>]) -> BTreeMap<Vec<u8>, i32> {
 fn scenario(pr: &Params) -> Verdict {
     e3::set_hash_key(pr.hash_key);
     world::reset(world::WorldCfg { nested_env: false, yields: true, select: false, policy: pr.policy, coop: false });
-    let n = pr.peers;
+    let n = pr.peers + pr.late_joiner as usize;
     let conns: Vec<e3::RawConn> = (0..n).map(|p| e3::raw_conn(&format!("P{}", p))).collect();
     for (p, c) in conns.iter().enumerate() {
+        if pr.late_joiner && p + 1 == n {
+            c.gate("api-done");
+        }
         c.send(&rc::handshake("PUB", Some(format!("PUB{}", p).as_bytes())));
-        if pr.failing == Some(p) {
+        if pr.failing == Some(p) && !pr.calls_after_attach {
             world::script_wmodes(c.from_lib, &[WMode::Fail(std::io::ErrorKind::BrokenPipe)]);
         }
     }
     let sock = SubSocket::new();
     let be = sock.backend();
     let hist = pr.hist.clone();
+    let (wait_attach, early_peers, failing_duct) = (pr.calls_after_attach, pr.peers, pr.failing.map(|p| conns[p].from_lib));
     let api = move || {
         let mut sock = sock;
         async move {
+            if wait_attach {
+                for p in 0..early_peers {
+                    world::wait_cond(&format!("attached{}", p)).await;
+                }
+                if let Some(d) = failing_duct {
+                    world::set_wmode(d, WMode::Fail(std::io::ErrorKind::BrokenPipe));
+                }
+            }
             for (i, op) in hist.iter().enumerate() {
                 let r = if *op < NT { sock.subscribe(topic(*op)).await } else { sock.unsubscribe(topic(*op)).await };
                 world::log(format!("call#{} {}({}) -> {}", i, if *op < NT { "subscribe" } else { "unsubscribe" }, topic(*op), e3::ok_or_err(&r)));
@@ -99,7 +116,7 @@ fn scenario(pr: &Params) -> Verdict {
     let mut v = Verdict::default();
     v.truncated = end != world::RunEnd::Quiescent;
     let names: Vec<String> = pr.hist.iter().map(|o| format!("{}({})", if *o < NT { "subscribe" } else { "unsubscribe" }, topic(*o))).collect();
-    let what = format!("SUB socket, calls {:?}, {} peers joining concurrently{}", names, n, pr.failing.map(|p| format!(", peer {}'s connection breaks at some point", p)).unwrap_or_default());
+    let what = format!("SUB socket, calls {:?}, {} peers joining concurrently{}", names, pr.peers, pr.failing.map(|p| format!(", peer {}'s connection breaks at some point", p)).unwrap_or_default());
     for p in world::panics() {
         let class = if p.contains("sub.rs") { "panic/sub.rs/unwrap-on-failed-send" } else { "panic" };
         v.violate(class, format!("{}: {}", what, p));
@@ -151,7 +168,7 @@ fn scenario(pr: &Params) -> Verdict {
 }
 
 fn pj(p: &Params) -> Value {
-    json!({"hist": p.hist, "peers": p.peers, "failing": p.failing, "api_first": p.api_first, "hash_key": p.hash_key, "policy": p.policy})
+    json!({"hist": p.hist, "peers": p.peers, "failing": p.failing, "api_first": p.api_first, "hash_key": p.hash_key, "policy": p.policy, "late_joiner": p.late_joiner, "calls_after_attach": p.calls_after_attach})
 }
 
 fn pf(v: &Value) -> Option<Params> {
@@ -162,6 +179,8 @@ fn pf(v: &Value) -> Option<Params> {
         api_first: v["api_first"].as_bool()?,
         hash_key: v["hash_key"].as_u64().unwrap_or(0),
         policy: v["policy"].as_u64().unwrap_or(0) as u8,
+        late_joiner: v["late_joiner"].as_bool().unwrap_or(false),
+        calls_after_attach: v["calls_after_attach"].as_bool().unwrap_or(false),
     })
 }
 
@@ -199,18 +218,28 @@ pub fn run(tier: Tier, replay: Option<String>) -> i32 {
                     if peers == 3 && (policy != 0 || h.len() > 3) {
                         continue;
                     }
-                    let pr = Params { hist: h.clone(), peers, failing: None, api_first, hash_key: 0, policy };
+                    let pr = Params { hist: h.clone(), peers, failing: None, api_first, hash_key: 0, policy, late_joiner: false, calls_after_attach: false };
                     let pr2 = pr.clone();
                     let bound = if peers >= 3 { 2 } else if peers == 1 { tier.pick(3, 4) } else { tier.pick(2, 3) };
                     jobs.push(e3::job(format!("C13/{:?}/{}p/{}/policy{}", h, peers, api_first, policy), pj(&pr), bound, tier.pick(100_000, 1_500_000), move || scenario(&pr2)));
+                    if policy == 0 && !api_first && !h.is_empty() {
+                        // the same with the calls made once the peers are connected, and one more peer joining afterwards
+                        let pr = Params { hist: h.clone(), peers, failing: None, api_first, hash_key: 0, policy, late_joiner: true, calls_after_attach: true };
+                        let pr2 = pr.clone();
+                        jobs.push(e3::job(format!("C13/{:?}/{}p/after-attach+late", h, peers), pj(&pr), tier.pick(1, 2), tier.pick(50_000, 500_000), move || scenario(&pr2)));
+                    }
                 }
             }
             if peers >= 2 && h.len() <= 3 && !h.is_empty() {
                 for failing in 0..peers {
                     for key in 0..tier.pick(2u64, 4u64) {
-                        let pr = Params { hist: h.clone(), peers, failing: Some(failing), api_first: false, hash_key: key, policy: 0 };
-                        let pr2 = pr.clone();
-                        jobs.push(e3::job(format!("C13/{:?}/{}p/fail{}/key{}", h, peers, failing, key), pj(&pr), tier.pick(1, 2), tier.pick(20_000, 300_000), move || scenario(&pr2)));
+                        for late_joiner in [false, true] {
+                            for calls_after_attach in [false, true] {
+                                let pr = Params { hist: h.clone(), peers, failing: Some(failing), api_first: false, hash_key: key, policy: 0, late_joiner, calls_after_attach };
+                                let pr2 = pr.clone();
+                                jobs.push(e3::job(format!("C13/{:?}/{}p/fail{}/key{}/late{}/after{}", h, peers, failing, key, late_joiner, calls_after_attach), pj(&pr), tier.pick(1, 2), tier.pick(20_000, 300_000), move || scenario(&pr2)));
+                            }
+                        }
                     }
                 }
             }
@@ -223,7 +252,7 @@ pub fn run(tier: Tier, replay: Option<String>) -> i32 {
     ck.cov("traces_validated_against_impl", ex);
     ck.cov("call_histories", hists.len() as u64);
     ck.cov("exhaustive", ck.coverage.get("e3_scenarios_capped").and_then(|v| v.as_u64()) == Some(0));
-    ck.cov("explanation", format!("every history of subscribe/unsubscribe calls over topics a, ab, b (a proper-prefix pair and an unrelated topic) of length <= {} ({} histories, incl. repeats and never-subscribed topics) on a real SUB socket with 1-2 (thorough 3) raw PUB peers whose attach actors may run at ANY point — including inside peer_connected between the snapshot of the set and the registration, and inside subscribe between the set update and the fan-out (yield points) — every schedule within the deviation bound from 2 default policies and both spawn orders; plus, for histories of length <= 3, one peer whose connection starts failing writes at any point, for each position of the failing peer and 2 (thorough 4) hash keys of the peer table (iteration order). Oracle at quiescence, from the reference-decoded wires folded into per-topic counts (RFC 29): all live peers agree on subscribed / not subscribed for every topic; for histories that never subscribe an already-subscribed topic every live peer's view equals the set implied by the calls; a failing peer does not stop the others from being updated; no panic. states = distinct observed outcomes.", max_len, hists.len()));
+    ck.cov("explanation", format!("every history of subscribe/unsubscribe calls over topics a, ab, b (a proper-prefix pair and an unrelated topic) of length <= {} ({} histories, incl. repeats and never-subscribed topics) on a real SUB socket with 1-2 (thorough 3) raw PUB peers whose attach actors may run at ANY point — including inside peer_connected between the snapshot of the set and the registration, and inside subscribe between the set update and the fan-out (yield points) — every schedule within the deviation bound from 2 default policies and both spawn orders; plus, for histories of length <= 3, one peer whose connection starts failing writes at any point, for each position of the failing peer, with and without one more peer that joins only after every call has returned, and 2 (thorough 4) hash keys of the peer table (iteration order). Oracle at quiescence, from the reference-decoded wires folded into per-topic counts (RFC 29): all live peers agree on subscribed / not subscribed for every topic; for histories that never subscribe an already-subscribed topic every live peer's view equals the set implied by the calls; a failing peer does not stop the others from being updated; no panic. states = distinct observed outcomes.", max_len, hists.len()));
     ck.assume("for double-subscribe histories only agreement among peers is demanded (set vs reference-count semantics of the socket is not fixed by the statement)");
     ck.conclude()
 }
